@@ -51,7 +51,8 @@
 (*                field); an invalid first representation fails the whole  *)
 (*                group.                                                   *)
 (*                Repaired: resolver chosen per representation, one call   *)
-(*                per (type, resolver), faults contained per call.         *)
+(*                per (type, resolver) in order of first appearance,       *)
+(*                faults contained per call.                               *)
 (*   FixShort     a batch resolver returning fewer entities than inputs    *)
 (*                leaves the tail null WITHOUT an error.                   *)
 (*   FixNilReq    a nil entity of a type with @requires is dereferenced    *)
@@ -305,15 +306,19 @@ PlanPinned(t) ==
        IF r.nn /\ \E j \in 1..Len(g) : ky[j] = 0 THEN [bad |-> 1, q |-> << >>]
        ELSE [bad |-> 0, q |-> << [r |-> r.n, ix |-> g, ky |-> ky] >>]
 
-\* repaired: resolver per representation, one call per resolver (declaration order)
-RECURSIVE PartsFrom(_, _)
-PartsFrom(t, j) ==
-  IF j > Len(Res(t)) THEN << >>
-  ELSE LET ix == AscSeq({i \in Range(G(t)) : FirstUsable(K(i)) = j}) IN
-       (IF ix = << >> THEN << >> ELSE << [r |-> Res(t)[j].n, ix |-> ix, ky |-> Keys(Res(t)[j], ix)] >>)
-       \o PartsFrom(t, j + 1)
+\* repaired: the resolver is chosen per representation; one call per resolver, the resolvers in
+\* order of first appearance in the request, the inputs of a call in request order; a
+\* representation without usable key gets its own error and stays null
+PartOf(t, j) == AscSeq({i \in Range(G(t)) : FirstUsable(K(i)) = j})
+RECURSIVE PartsBy(_, _)
+PartsBy(t, js) ==        \* js: resolver indices still to place
+  IF js = {} THEN << >>
+  ELSE LET j == CHOOSE x \in js : \A y \in js : PartOf(t, x)[1] <= PartOf(t, y)[1]
+           ix == PartOf(t, j) IN
+       << [r |-> Res(t)[j].n, ix |-> ix, ky |-> Keys(Res(t)[j], ix)] >> \o PartsBy(t, js \ {j})
 PlanFixed(t) ==
-  [bad |-> Cardinality({i \in Range(G(t)) : FirstUsable(K(i)) = 0}), q |-> PartsFrom(t, 1)]
+  [bad |-> Cardinality({i \in Range(G(t)) : FirstUsable(K(i)) = 0}),
+   q |-> PartsBy(t, {FirstUsable(K(i)) : i \in Range(G(t))} \ {0})]
 
 \* resolveEntityGroup
 GroupStart(t) ==
